@@ -124,3 +124,33 @@ Proof.
   apply sess_inv in E. destruct E as (vers & P & _ & _ & Ev).
   apply pick_version_peer in P. rewrite Hsv in P. cbn in P. congruence.
 Qed.
+
+(* C12 on the resumption path: the suite of a completed handshake - resumed or not - is one the hello lists *)
+Lemma run12_sess_suite e v vers h fl sess ems st :
+  run12_sess e v vers h fl sess ems = Complete st -> In (cs_suite st) (cv_suites v).
+Proof.
+  unfold run12_sess. destruct (resumes v sess h) eqn:R.
+  - destruct sess as [s|]; [|discriminate R]. intros H.
+    assert (K : run12_sess e v vers h fl (Some s) ems = Complete st).
+    { unfold run12_sess. rewrite R. exact H. }
+    destruct (run12_sess_resumed _ _ _ _ _ _ _ _ R K) as (_ & _ & I & _). exact I.
+  - intros H. apply run12_inv in H. rewrite (a12_suite _ _ _ _ _ _ H). exact (a12_suite_offered _ _ _ _ _ _ H).
+Qed.
+
+Lemma sess_suite_offered e v sess ems fl st :
+  client_run_sess e v sess ems fl = Complete st -> In (cs_suite st) (cv_suites v).
+Proof.
+  unfold client_run_sess. fold (first_hello fl).
+  destruct (pick_version v (first_hello fl)) as [vers|]; [|discriminate].
+  destruct (version_offered e v vers); [|discriminate]. cbn [negb].
+  destruct (canary_abort e v vers (first_hello fl)); [discriminate|].
+  destruct (vers =? V13).
+  - intros H. apply run13_inv in H. rewrite (a13_suite _ _ _ H). exact (a13_suite_offered _ _ _ H).
+  - apply run12_sess_suite.
+Qed.
+
+Lemma wire_suite_sess e v w sess ems fl st :
+  synced v w = true -> client_run_sess e v sess ems fl = Complete st -> In (cs_suite st) (w_suites w).
+Proof.
+  intros Hs Hr. destruct (synced_inv _ _ Hs) as (S1 & _). rewrite <- S1. eapply sess_suite_offered; eauto.
+Qed.
